@@ -252,6 +252,10 @@ func cmdCheck(args []string) int {
 			if only := os.Getenv("GVC_ONLY"); only != "" && !strings.Contains(ct.Func, only) {
 				continue
 			}
+			if unitInst != nil && len(units) > 1 && ct.File != "synthesised" {
+				// hand-written contracts of /repo packages are the business of the hand unit
+				continue
+			}
 			selected = append(selected, ct)
 		}
 		type verified struct {
